@@ -180,6 +180,7 @@ def run_check(modname: str, tier: str, max_runs: int, chunk: int = 8,
     viol_lines: List[str] = []
     minimised_per_class: Dict[str, int] = {}
     shrink_spent = [0.0]
+    replays_confirmed = [0]
     all_sigs: Dict[str, int] = {}
     findings = [f for f in kit.load_known_findings() if f.get("property") == prop]
 
@@ -240,6 +241,22 @@ def run_check(modname: str, tier: str, max_runs: int, chunk: int = 8,
             failure = dict(fv[0])
             failure["log"] = final.get("log")
             path = kit.write_replay(prop, item["seed"], small, failure)
+            # the replay file must reproduce the violation in a fresh process
+            try:
+                import subprocess
+
+                rp = subprocess.run(
+                    [sys.executable, "-B", os.path.join(kit.VERIF, "sim", "main.py"), prop,
+                     "--replay", path], capture_output=True, text=True, timeout=600,
+                    env=dict(os.environ, VERIF_SRC=kit.SRC))
+                if rp.returncode != 1:
+                    harness_errors.append(
+                        f"replay file {path} did not reproduce in a fresh process "
+                        f"(exit {rp.returncode}): {rp.stdout[-300:]}")
+                else:
+                    replays_confirmed[0] += 1
+            except Exception as ex:  # noqa: BLE001
+                harness_errors.append(f"replaying {path} in a fresh process failed: {ex!r}")
             viol_lines.append(f"VIOLATION property={prop} replay={path}")
             print(f"[{prop}] violation detail: {json.dumps(failure['sig'])} "
                   f"seed={item['seed']}", flush=True)
@@ -293,6 +310,7 @@ def run_check(modname: str, tier: str, max_runs: int, chunk: int = 8,
         "probes": {k: v for k, v in sorted(agg_stats.items()) if k.startswith("probe_")},
         "components": getattr(mod, "COMPONENTS", {}),
         "known_findings_matched": dict(sorted(known_hits.items())),
+        "replay_files_reproduced_in_fresh_process": replays_confirmed[0],
         "harness_errors": harness_errors[:10],
         "workers": kit.CPUS,
     }
